@@ -139,6 +139,59 @@ func concatParts(v ssa.Value) []ssa.Value {
 			return append(concatParts(b.X), concatParts(b.Y)...)
 		}
 	}
+	if c, ok := v.(*ssa.Call); ok && calleeIs(c, "strings", "Join") && len(c.Common().Args) == 2 {
+		// strings.Join(parts, sep): the parts that were appended to the list
+		var out []ssa.Value
+		seen := map[ssa.Value]bool{}
+		var elems func(l ssa.Value, depth int)
+		elems = func(l ssa.Value, depth int) {
+			if depth > 12 || seen[l] {
+				return
+			}
+			seen[l] = true
+			switch x := l.(type) {
+			case *ssa.Phi:
+				for _, e := range x.Edges {
+					elems(e, depth+1)
+				}
+			case *ssa.Call:
+				if builtinName(x.Common()) != "append" || len(x.Common().Args) != 2 {
+					return
+				}
+				elems(x.Common().Args[0], depth+1)
+				if sl, ok := x.Common().Args[1].(*ssa.Slice); ok {
+					if al, ok := sl.X.(*ssa.Alloc); ok {
+						for _, ref := range referrers(al) {
+							if ia, ok := ref.(*ssa.IndexAddr); ok {
+								for _, r2 := range referrers(ia) {
+									if st, ok := r2.(*ssa.Store); ok {
+										out = append(out, concatParts(st.Val)...)
+									}
+								}
+							}
+						}
+					}
+				}
+			case *ssa.Slice:
+				// a slice literal []string{a, b}
+				if al, ok := x.X.(*ssa.Alloc); ok {
+					for _, ref := range referrers(al) {
+						if ia, ok := ref.(*ssa.IndexAddr); ok {
+							for _, r2 := range referrers(ia) {
+								if st, ok := r2.(*ssa.Store); ok {
+									out = append(out, concatParts(st.Val)...)
+								}
+							}
+						}
+					}
+				}
+			}
+		}
+		elems(c.Common().Args[0], 0)
+		if len(out) > 0 {
+			return append(out, c.Common().Args[1])
+		}
+	}
 	if p, ok := v.(*ssa.Phi); ok {
 		// a string built incrementally (id += …): report all leaves
 		var out []ssa.Value
@@ -690,17 +743,49 @@ func checkRelsSorted(p *Prog, r *Report, rels *ssa.Function) {
 			}
 		}
 	}
+	var lessFn *ssa.Function
+	if !sorted && ret != nil && len(ret.Results) == 1 {
+		// the list is a plain local: a sort.* call on the very value that is returned
+		eachInstr(rels, func(ins ssa.Instruction) {
+			c, ok := ins.(*ssa.Call)
+			if !ok || len(c.Common().Args) == 0 {
+				return
+			}
+			sc := c.Common().StaticCallee()
+			if sc == nil || sc.Pkg == nil || sc.Pkg.Pkg.Path() != "sort" {
+				return
+			}
+			if stripValue(c.Common().Args[0]) == ret.Results[0] && c.Block().Dominates(ret.Block()) {
+				sorted = true
+				sortCall = c
+			}
+		})
+	}
+	if sortCall != nil && (fullName(sortCall.Common().StaticCallee()) == "sort.Sort" || fullName(sortCall.Common().StaticCallee()) == "sort.Stable") {
+		// sort.Sort(T(list)): the comparator is T's Less method
+		if mi, ok := sortCall.Common().Args[0].(*ssa.MakeInterface); ok {
+			for _, g := range p.Funcs {
+				if g.Name() == "Less" && g.Signature.Recv() != nil && types.Identical(g.Signature.Recv().Type(), mi.X.Type()) {
+					lessFn = g
+				}
+			}
+		}
+	}
 	r.decide(sorted, "R7.map-order", "Rels:return-sorted", p.pos(rels.Pos()),
 		"the slice filled from the map is sorted before it is returned", "Schema.Rels returns relationships in map-iteration order (no sort between the last append and the return)")
 
 	// (b) comparator key
 	if sortCall != nil {
+		var cmps []*ssa.Function
 		for _, a := range sortCall.Common().Args {
-			mc, ok := a.(*ssa.MakeClosure)
-			if !ok {
-				continue
+			if mc, ok := a.(*ssa.MakeClosure); ok {
+				cmps = append(cmps, mc.Fn.(*ssa.Function))
 			}
-			cmp := mc.Fn.(*ssa.Function)
+		}
+		if lessFn != nil {
+			cmps = append(cmps, lessFn)
+		}
+		for _, cmp := range cmps {
 			r.fn(funcName(cmp))
 			found := false
 			eachInstr(cmp, func(ins ssa.Instruction) {
@@ -795,9 +880,13 @@ func elemField(v ssa.Value, cmp *ssa.Function) (int, string, bool) {
 	if !ok {
 		return 0, "", false
 	}
+	off := 0
+	if cmp.Signature.Recv() != nil {
+		off = 1 // a Less(i, j) method: the receiver comes first
+	}
 	for k, prm := range cmp.Params {
-		if ia.Index == ssa.Value(prm) {
-			return k, f, true
+		if ia.Index == ssa.Value(prm) && k >= off {
+			return k - off, f, true
 		}
 	}
 	return 0, "", false
